@@ -63,7 +63,7 @@ InB == S0 \cup { SExpr(e) : e \in E0 } \cup { SExpr(Asg("f", e)) : e \in E0 }
 Items == InB \cup { SDef("b", nm, Opt(s)) : nm \in {"", "n"}, s \in InB \cup {None} } \cup { SBind("a", sel, tgt) : sel \in {"none", "last", "all", "bogus"}, tgt \in {"struct", "slice"} }
 VARIABLES prog, phase, style, body, ch
 vars == <<prog, phase, style, body, ch>>
-Init == prog = <<>> /\ phase = 0 /\ style = [semi |-> FALSE, par |-> 0, rot |-> 0] /\ body = <<>> /\ ch = 0
+Init == prog = <<>> /\ phase = 0 /\ style = [semi |-> FALSE, par |-> 0, rot |-> 0] /\ body = <<>> /\ ch = <<>>
 AddItem == /\ Scope = "render" /\ phase < MaxItems /\ \E i \in Items : prog' = Append(prog, i)
            /\ phase' = phase + 1 /\ UNCHANGED <<style, body, ch>>
 PickStyle == /\ Scope = "render" /\ phase >= 1 /\ phase <= MaxItems
@@ -73,8 +73,11 @@ PickStyle == /\ Scope = "render" /\ phase >= 1 /\ phase <= MaxItems
 Units == { <<35>>, <<59>>, <<40>>, <<41>>, <<32>>, <<9>>, <<11>>, <<12>>, <<13>>, <<194, 133>>, <<194, 160>>, <<34>>, <<92>>, <<97>> }
 AddUnit == /\ Scope = "strings" /\ phase < MaxItems /\ \E u \in Units : body' = body \o u
            /\ phase' = phase + 1 /\ UNCHANGED <<prog, style, ch>>
-CommentBytes == { 10, 13, 9, 11, 12, 32, 34, 35, 59, 133, 160, 194, 0, 27, 127 }
-PickCh == /\ Scope = "comment" /\ phase = 0 /\ \E c \in CommentBytes : ch' = c
+\* what may stand inside a comment without ending it: every whitespace character but CR and LF (also the two-byte U+0085 and
+\* U+00A0 and the line separators U+2028 / U+2029), control bytes, quotes, stray UTF-8 bytes
+CommentUnits == { <<10>>, <<13>>, <<9>>, <<11>>, <<12>>, <<32>>, <<34>>, <<35>>, <<59>>, <<133>>, <<160>>, <<194>>, <<0>>, <<27>>, <<127>>,
+                  <<194, 133>>, <<194, 160>>, <<226, 128, 168>>, <<226, 128, 169>>, <<13, 10>> }
+PickCh == /\ Scope = "comment" /\ phase = 0 /\ \E c \in CommentUnits : ch' = c
           /\ phase' = 100 /\ UNCHANGED <<prog, style, body>>
 Next == AddItem \/ PickStyle \/ AddUnit \/ PickCh
 Spec == Init /\ [][Next]_vars
@@ -89,7 +92,7 @@ Proj(ts) == [i \in 1..Len(ts) |-> [k |-> ts[i].k, text |-> ts[i].text]]
 SameTokens == (Scope = "render" /\ phase = 100) =>
                  LET t0 == ToksOf(IF style.semi THEN DropSemi(SrcB0) ELSE SrcB0) IN Proj(ToksOf(SrcB)) = Proj(t0)
 StrSrc == <<112, 114, 105, 110, 116, 32, 34>> \o EscPlain(body) \o <<34, 10>>
-CmtSrc == <<112, 114, 105, 110, 116, 32, 49, 32, 35, 99>> \o <<ch>> \o <<112, 114, 105, 110, 116, 32, 50, 10>>
+CmtSrc == <<112, 114, 105, 110, 116, 32, 49, 32, 35, 99>> \o ch \o <<112, 114, 105, 110, 116, 32, 50, 10>>
 Emit ==
   /\ (Scope = "render" /\ phase = 100) =>
         PrintT(<<"CASE", ToJson([fam |-> "layout", kind |-> "pair", a |-> SrcA, b |-> SrcB, out |-> <<>>, nt |-> (Len(prog) >= 2)])>>)
@@ -97,5 +100,5 @@ Emit ==
         PrintT(<<"CASE", ToJson([fam |-> "layout", kind |-> "string", a |-> StrSrc, b |-> <<>>, out |-> body \o <<10>>, nt |-> (phase >= 2)])>>)
   /\ (Scope = "comment" /\ phase = 100) =>
         PrintT(<<"CASE", ToJson([fam |-> "layout", kind |-> "comment", a |-> CmtSrc, b |-> <<>>,
-                                  out |-> IF ch \in {10, 13} THEN <<49, 10, 50, 10>> ELSE <<49, 10>>, nt |-> TRUE])>>)
+                                  out |-> IF ch \in {<<10>>, <<13>>, <<13, 10>>} THEN <<49, 10, 50, 10>> ELSE <<49, 10>>, nt |-> TRUE])>>)
 ====
